@@ -14,7 +14,7 @@ def owner_maps(history):
             o = op.get('op')
             if o == 'add_lf':
                 lf_fid[op['lf']] = op['fid']
-            elif o == 'add':
+            elif o == 'add' or (o == 'nf_data' and op.get('h')):
                 h_lf[op['h']] = op['lf']
             elif o == 'hc_block':
                 walk(op.get('body', []))
@@ -24,7 +24,7 @@ def owner_maps(history):
 
 def op_fid(op, lf_fid, h_lf):
     o = op.get('op')
-    if o in ('new_file', 'add_lf', 'write'):
+    if o in ('new_file', 'add_lf', 'write', 'set_sul'):
         return op.get('fid')
     if o in ('add', 'nf_data'):
         return lf_fid.get(op.get('lf'))
